@@ -3,7 +3,7 @@
    SPEC = direct indexing / per-semantic input lists / the documented normalisations. *)
 From Coq Require Import List Bool ZArith NArith Lia.
 From PC Require Import Base.Atoms Base.Xml Base.Outcome Base.Py Model.LoadPrim Model.Namespace Model.LoadDoc
-                       Proofs.LoadPrim Proofs.LoadPrimViews Proofs.LoadPrimRefine Proofs.LoadDoc.
+                       Proofs.LoadPrim Proofs.LoadPrimViews Proofs.LoadPrimRefine Proofs.LoadDoc Proofs.LoadFlat.
 Import ListNotations.
 Local Open Scope nat_scope.
 
@@ -158,6 +158,33 @@ Proof.
   - rewrite !nth_overflow; [reflexivity|exact L|now rewrite map_length].
 Qed.
 Print Assumptions C05_source_normalisations.
+
+(* a <source> with a float_array: what FloatSource.load builds (tokens -> float32 classes, NaN -> 0,
+   param names with the two renamings, third texcoord column dropped, rows = values / components)
+   is the declarative reading of the element *)
+Theorem C05_source_load_is_read : forall numtab e arr s,
+  efind a_float_array e = Some arr -> load_float_source numtab e arr = Ok s -> read_float_source numtab e = Some s.
+Proof. exact load_float_source_is_read. Qed.
+Print Assumptions C05_source_load_is_read.
+
+(* flat class loaders.  Cameras: x / y / znear / zfar as given, the aspect ratio dropped exactly when
+   all three of x, y and aspect ratio are given, rejected (DaeMalformed) exactly when neither x nor y
+   is given.  References (material -> effect, default scene -> visual scene, instance_* -> library
+   object): "#id" resolves to the LAST object of the library carrying that id (IndexedList.get). *)
+Theorem C05_flat_loaders :
+  (forall c, match camera_ctor c with
+             | Ok c' => c_x c' = c_x c /\ c_y c' = c_y c /\ c_near c' = c_near c /\ c_far c' = c_far c /\
+                        c_ar c' = (if all_three c then None else c_ar c) /\ (c_x c <> None \/ c_y c <> None)
+             | Raise e => e = DaeMalformed /\ c_x c = None /\ c_y c = None
+             end) /\
+  (forall l o u, resolve_url l o = Ok u ->
+     exists a pre post, o = Some (ARef true a) /\ l = pre ++ (Some (AStr a), u) :: post /\ lib_get post a = None).
+Proof.
+  split; [exact camera_ctor_spec|].
+  intros l o u H. destruct (resolve_url_spec _ _ _ H) as (a & -> & G).
+  destruct (proj1 (lib_get_spec l a u) G) as (pre & post & E & N). exists a, pre, post. auto.
+Qed.
+Print Assumptions C05_flat_loaders.
 
 (* nodes: Node.load's dispatching loop yields the node the file describes (ids, names defaulting to
    the id, transforms in order with kind and parameters, children in order), at every depth:
